@@ -2,7 +2,7 @@
 """Regenerate MANIFEST.json from the table below (claims only properties whose check module exists)."""
 import json, os
 V = os.path.dirname(os.path.dirname(os.path.abspath(__file__)))
-FIX = ["babe27c", "ced6fc6", "e9b1823", "f0f5ba3", "2237bfc", "96a183d", "ab1e880", "e2514d2", "6d455da", "c3884d2", "0bd9b8b", "cdfcb1e", "bb6eea0", "f378e6e", "911118e", "f0e6b77", "9092519", "fa8f720", "95d4304", "286b90f", "231ce29", "bf9f023", "e6eeb7f", "c0bf33e", "fbde650", "e7688fd", "5a0eaf2"]
+FIX = ["babe27c", "ced6fc6", "e9b1823", "f0f5ba3", "2237bfc", "96a183d", "ab1e880", "e2514d2", "6d455da", "c3884d2", "0bd9b8b", "cdfcb1e", "bb6eea0", "f378e6e", "911118e", "f0e6b77", "9092519", "fa8f720", "95d4304", "286b90f", "231ce29", "bf9f023", "e6eeb7f", "c0bf33e", "fbde650", "e7688fd", "5a0eaf2", "34fdbf2"]
 P = {
  "C01": ("model_checking", "walk", "TLC exhaustive model check of Walk.tla (every database x root list in every order) + TLC-enumerated scenarios replayed into the real client + TLC batch trace validation (Trace_Walk.tla)",
          "TLC decides walk exactness on the implementation-shaped model for every database over a 7/9-instance universe and every list of <=3 disjoint roots in every order; the same scenarios (TLC's initial states) are replayed through Client.walk/multiwalk/bulkwalk and PyWrapper against a reference agent, and every recorded trace is judged by the TLC monitor (nothing outside the roots, no duplicate, no invented value, ascending for one root, complete at the end). Round 2: seeded large databases are also walked by GETBULK with repetitions 2..25 (subtrees exhausted in different rounds).",
